@@ -408,6 +408,9 @@ func (c *TermCtx) BV(op Op, a, b *Term) *Term {
 		if a == b {
 			return c.Const(w, 0)
 		}
+		if r := c.cancelSub(a, b, 6); r != nil {
+			return r
+		}
 		if b.IsConst() {
 			return c.BV(OpBVAdd, a, c.Const(w, -b.K))
 		}
@@ -486,6 +489,14 @@ func (c *TermCtx) BV(op Op, a, b *Term) *Term {
 		if op == OpBVLShr && b.IsConst() && a.Op == OpZExt && b.K >= uint64(a.Args[0].W) {
 			return c.Const(w, 0)
 		}
+	case OpBVSDiv, OpBVSRem:
+		if b.IsConst() && b.K != 0 && knownMax(a) <= mask(w)>>1 && b.K <= mask(w)>>1 {
+			// both non-negative: signed == unsigned
+			if op == OpBVSDiv {
+				return c.BV(OpBVUDiv, a, b)
+			}
+			return c.BV(OpBVURem, a, b)
+		}
 	case OpBVUDiv:
 		if b.IsConst() && b.K == 1 {
 			return a
@@ -493,12 +504,18 @@ func (c *TermCtx) BV(op Op, a, b *Term) *Term {
 		if b.IsConst() && bits.OnesCount64(b.K) == 1 {
 			return c.BV(OpBVLShr, a, c.Const(w, uint64(bits.TrailingZeros64(b.K))))
 		}
+		if r := c.narrowDiv(op, a, b); r != nil {
+			return r
+		}
 	case OpBVURem:
 		if b.IsConst() && b.K == 1 {
 			return c.Const(w, 0)
 		}
 		if b.IsConst() && bits.OnesCount64(b.K) == 1 {
 			return c.BV(OpBVAnd, a, c.Const(w, b.K-1))
+		}
+		if r := c.narrowDiv(op, a, b); r != nil {
+			return r
 		}
 	}
 	return c.mk(op, w, 0, "", []*Term{a, b})
@@ -546,10 +563,85 @@ func knownMax(t *Term) uint64 {
 		}
 	case OpBVURem:
 		if t.Args[1].IsConst() && t.Args[1].K > 0 {
+			m := knownMax(t.Args[0])
+			if m < t.Args[1].K-1 {
+				return m
+			}
 			return t.Args[1].K - 1
+		}
+		return knownMax(t.Args[0])
+	case OpBVUDiv:
+		if t.Args[1].IsConst() && t.Args[1].K > 0 {
+			return knownMax(t.Args[0]) / t.Args[1].K
+		}
+		return knownMax(t.Args[0])
+	case OpBVAdd:
+		a, b := knownMax(t.Args[0]), knownMax(t.Args[1])
+		if s := a + b; s >= a && s <= mask(t.W) {
+			return s
+		}
+	case OpBVMul:
+		a, b := knownMax(t.Args[0]), knownMax(t.Args[1])
+		if a == 0 || b == 0 {
+			return 0
+		}
+		if hi, lo := bits.Mul64(a, b); hi == 0 && lo <= mask(t.W) {
+			return lo
+		}
+	case OpBVOr, OpBVXor:
+		a, b := knownMax(t.Args[0]), knownMax(t.Args[1])
+		if a < b {
+			a = b
+		}
+		if a == 0 {
+			return 0
+		}
+		return mask(uint8(bits.Len64(a)))
+	case OpBVShl:
+		if t.Args[1].IsConst() && t.Args[1].K < 64 {
+			a := knownMax(t.Args[0])
+			if bits.Len64(a)+int(t.Args[1].K) <= int(t.W) {
+				return a << t.Args[1].K
+			}
 		}
 	}
 	return mask(t.W)
+}
+
+// narrowDiv computes a div/rem of small non-negative operands at a reduced width.
+func (c *TermCtx) narrowDiv(op Op, a, b *Term) *Term {
+	w := a.W
+	ma, mb := knownMax(a), knownMax(b)
+	m := ma
+	if mb > m {
+		m = mb
+	}
+	need := uint8(bits.Len64(m)) + 1
+	if need < 8 {
+		need = 8
+	}
+	if need >= w || (b.IsConst() && b.K == 0) {
+		return nil
+	}
+	uop := op
+	switch op {
+	case OpBVSDiv:
+		uop = OpBVUDiv
+	case OpBVSRem:
+		uop = OpBVURem
+	}
+	if !b.IsConst() {
+		return nil
+	}
+	na, nb := c.Extract(a, need-1, 0), c.Extract(b, need-1, 0)
+	var r *Term
+	if na.IsConst() && nb.IsConst() {
+		v, _ := evalBin(uop, need, na.K, nb.K)
+		r = c.Const(need, v)
+	} else {
+		r = c.mk(uop, need, 0, "", []*Term{na, nb})
+	}
+	return c.ZExt(r, w)
 }
 
 func (c *TermCtx) Cmp(op Op, a, b *Term) *Term {
@@ -865,4 +957,32 @@ func (t *Term) str(d int) string {
 	}
 	sb.WriteString(")")
 	return sb.String()
+}
+
+// cancelSub simplifies a-b when b occurs as an addend of a (or vice versa); nil if no progress.
+func (c *TermCtx) cancelSub(a, b *Term, depth int) *Term {
+	if a == b {
+		return c.Const(a.W, 0)
+	}
+	if depth == 0 {
+		return nil
+	}
+	if a.Op == OpBVAdd {
+		if r := c.cancelSub(a.Args[0], b, depth-1); r != nil {
+			return c.BV(OpBVAdd, r, a.Args[1])
+		}
+		if r := c.cancelSub(a.Args[1], b, depth-1); r != nil {
+			return c.BV(OpBVAdd, a.Args[0], r)
+		}
+	}
+	if b.Op == OpBVAdd {
+		// a - (x + y) = (a - x) - y
+		if r := c.cancelSub(a, b.Args[0], depth-1); r != nil {
+			return c.BV(OpBVSub, r, b.Args[1])
+		}
+		if r := c.cancelSub(a, b.Args[1], depth-1); r != nil {
+			return c.BV(OpBVSub, r, b.Args[0])
+		}
+	}
+	return nil
 }
